@@ -3,6 +3,7 @@ CONSTANTS
   Values = @VALUES@
   MaxVals = @MAXVALS@
   LimitVals = @LIMITS@
+  LongLens = @LONG@
   MaxSteps = @STEPS@
 INIT GInit
 NEXT GNext
